@@ -4,7 +4,7 @@
    A [forest] is a well-formed profile-event stream (CPython's event discipline); [events] flattens it. *)
 From Coq Require Import ZArith NArith List Bool.
 Import ListNotations.
-Require Import UV.C19.Model UV.C19.Proofs.
+Require Import UV.C19.Model UV.C19.Proofs UV.C19.SymFile UV.C19.SymFileProofs.
 Local Open Scope Z_scope.
 
 (* Refinement: for every configuration of the current code (filters, libcall mode), every call
@@ -217,3 +217,28 @@ Theorem C19_checker_accepts_model : forall k,
   agrees k = true -> ok_case k = true.
 Proof. exact checker_accepts_model. Qed.
 Print Assumptions C19_checker_accepts_model.
+
+(* python.fake.sym (write_symtab: 48-byte header, "%016x %c %s" entries, __sym_end) read back line
+   by line gives the table itself: addresses 1..n in order, names and library flags as recorded;
+   names without newline, fewer than 16^16 symbols *)
+Theorem C19_symfile_roundtrip : forall tab,
+  Forall (fun s => no_nl (s_name s)) tab -> (N.of_nat (length tab) + 1 < 16 ^ 16)%N ->
+  parse_symfile (render_symtab tab) = Some (number_from 1 tab).
+Proof. exact symfile_roundtrip. Qed.
+Print Assumptions C19_symfile_roundtrip.
+
+(* so the address the callback handed to libmcount for a call names, in the file every analysis
+   command reads, the symbol of that call (with C19_addresses_resolve / C19_trace_python_spec) *)
+Theorem C19_symfile_resolves : forall tab a s,
+  Forall (fun s => no_nl (s_name s)) tab -> (N.of_nat (length tab) + 1 < 16 ^ 16)%N ->
+  resolve tab a = Some s ->
+  exists l, parse_symfile (render_symtab tab) = Some l /\ In (a, s) l.
+Proof. exact symfile_resolves. Qed.
+Print Assumptions C19_symfile_resolves.
+
+Example C19_symfile_example :
+  parse_symfile (render_symtab [l_sym (py nm_a); l_sym (cf nm_getpid)]) =
+    Some [(1%N, l_sym (py nm_a)); (2%N, l_sym (cf nm_getpid))] /\
+  length (join_lines (header_lines 2)) = 48%nat.
+Proof. exact symfile_example. Qed.
+Print Assumptions C19_symfile_example.
